@@ -85,4 +85,79 @@ def ptBackend (cfg : PTCfg) : Backend PopSt where
   iterate := ptIterate cfg
   evaluate := ptEvaluate cfg
 
+/-! ### ParticleSwarmOptimizer and SpiralOptimization (after fix d993248)
+
+  The members are `Particle` / `Spiral` objects: hill-climbing trackers with one extra move.  The float expressions of the
+  moves (velocity, rotation about the centre) are oracle values; which member moves, what is checked against which
+  constraint object, which fallback runs and what each tracker records is modelled. -/
+
+/-- `Particle.move_linear` (undecorated part under `random_iteration`): `_move_part(self.pos_current, new_velocity)` -/
+def moveLinear (cfg : LocalCfg) (m : Local) (tape : Tape) : Except Err (Pos × Tape) :=
+  randomIteration cfg tape (fun tape =>
+    match tape with
+    | .part pos velo :: rest =>
+      if m.tr.posCurrent ≠ some pos then .error (protocol "_move_part-from-elsewhere")
+      else .ok (movePart pos velo cfg.geo.maxPos, rest)
+    | [] => .error .needMore
+    | _ => .error (protocol "move_linear"))
+
+/-- `ParticleSwarmOptimizer.iterate`: the linear move, the OUTER constraint check, else the member's `move_climb` from the
+    rejected position - which then also becomes the member's `pos_new` -/
+def psoIterate (cfg : LocalCfg) (s : PopSt) : Except Err (Pos × PopSt) := do
+  let (idx, m) ← s.pick
+  let (p, tape1) ← moveLinear cfg m s.tape
+  let m1 : Local := { m with tr := m.tr.trackNewPos p }
+  let (ok, tape2) ← askFeas p tape1
+  if ok then pure (p, { s with members := s.members.set idx m1, cur := idx, tape := tape2, tr := s.tr.trackNewPos p })
+  else do
+    let (q, tape3) ← moveClimb cfg.geo (some p) (some 1) tape2
+    let m2 : Local := { m1 with tr := { m1.tr with posNew := some q } }
+    pure (q, { s with members := s.members.set idx m2, cur := idx, tape := tape3, tr := s.tr.trackNewPos q })
+
+def psoEvaluate (cfg : LocalCfg) (s : PopSt) (score : F) : Except Err PopSt :=
+  ptEvalMember { member := cfg, nIterSwap := 1 } s (s.tr.setScoreNew score) s.tape score
+
+/-- members are `Particle`s: `cfg.kind = .hillClimbing` -/
+def psoBackend (cfg : LocalCfg) : Backend PopSt where
+  initPos := ptInitPos
+  evalInit := ptEvalInit
+  finishInit s := .ok s
+  iterate := psoIterate cfg
+  evaluate := psoEvaluate cfg
+
+/-- `Spiral.move_spiral` (under `random_iteration`): clip and cast of the float vector -/
+def moveSpiral (cfg : LocalCfg) (tape : Tape) : Except Err (Pos × Tape) :=
+  randomIteration cfg tape (fun tape =>
+    match tape with
+    | .spiral v :: rest => .ok (spiralClip v cfg.geo.maxPos, rest)
+    | [] => .error .needMore
+    | _ => .error (protocol "move_spiral"))
+
+/-- `SpiralOptimization.iterate`: the spiral move, the outer constraint check, else the member's own hill-climbing `iterate` -/
+def spiralIterate (cfg : LocalCfg) (s : PopSt) : Except Err (Pos × PopSt) := do
+  let (idx, m) ← s.pick
+  let (p, tape1) ← moveSpiral cfg s.tape
+  let m1 : Local := { m with tr := m.tr.trackNewPos p }
+  let (ok, tape2) ← askFeas p tape1
+  if ok then pure (p, { s with members := s.members.set idx m1, cur := idx, tape := tape2, tr := s.tr.trackNewPos p })
+  else do
+    let (q, m2) ← localIterate cfg { m1 with tape := tape2 }
+    pure (q, { s with members := s.members.set idx { m2 with tape := [] }, cur := idx, tape := m2.tape, tr := s.tr.trackNewPos q })
+
+def spiralEvaluate (s : PopSt) (score : F) : Except Err PopSt :=
+  match s.members[s.cur]? with
+  | none => .error (.other "AttributeError")
+  | some m =>
+    let t1 := s.tr.setScoreNew score
+    .ok { s with members := s.members.set s.cur { m with tr := Tracker.spiralEvaluate m.tr score }
+                 tr := { t1 with nthTrial := t1.nthTrial + 1 } }
+
+/-- members are `Spiral`s; their fallback `iterate` is hill climbing's: `cfg.kind = .hillClimbing` -/
+def spiralBackend (cfg : LocalCfg) : Backend PopSt where
+  initPos := ptInitPos
+  evalInit := ptEvalInit
+  finishInit s := .ok s
+  iterate := spiralIterate cfg
+  evaluate := spiralEvaluate
+
 end GFO
